@@ -1,14 +1,218 @@
 /-
 C08 — aggregation sums exactly the cells it merges and loses nothing.
 Only property theorems live here (helper lemmas: `Lemmas/Summarize.lean`, `Lemmas/Aggregate.lean`).
+The values of an aggregated cell come from the C09 model (`summarizeCellValues`), whose sum clause is
+`Properties/C09`'s; the rule table is the regenerated one.
 -/
 import Bermuda.Model.Aggregate
 import Bermuda.Spec.C08
+import Bermuda.Lemmas.Aggregate
 namespace Bermuda.Properties.C08
-open Bermuda
+open Bermuda Generated.Summarize
 
-/-- **Incremental in/out.** On an incremental triangle `aggregate` is the incremental form of the aggregate of
-its cumulative form (definitional in code and model; stated so that a rewrite which breaks it is caught). -/
+/-! ### 1. windows -/
+
+/-- windows are consecutive: window `k + 1` starts the day after window `k` ends -/
+theorem window_consecutive (q : Int) (u : ResUnit) (init : Date) (k : Nat) :
+    (windowAt q u init (k + 1)).1 = (windowAt q u init k).2.succ := rfl
+
+/-- each window ends one resolution step after the grid point it starts behind -/
+theorem window_step (q : Int) (u : ResUnit) (init : Date) (k : Nat) :
+    (windowAt q u init k).2 = resolutionDelta (iterD q u k init) q u := iterD_succ' q u k init
+
+/-- **`window_spec`.** A successful `_aggregate_period` re-labels every source cell (in `(ps, pe, ev)` order)
+with one of the consecutive windows `windowAt k = [grid k + 1 day, grid (k+1)]`, `grid k = anchor + k·res`,
+such that the cell's period starts and ends no later than the window's end; evaluation date, values and metadata
+are untouched. (`windowAt` is by construction a chain of adjacent intervals; that they are disjoint needs the
+step to be increasing, i.e. a positive quantity — an assumption of the model, `aggFuel`.) -/
+theorem window_spec {tr : Transc} {t out : List Cell} {q : Int} {s : String} {origin : Date}
+    {prem : Bool} (h : aggregatePeriod tr t (some (q, s)) origin prem = .ok out) :
+    ∃ q' u init rel, standardizeResolution q s = .ok (q', u) ∧
+      rel.length = t.length ∧
+      ∀ p ∈ (t.mergeSort fun a b => coordCmp a b != .gt).zip rel, Relabelled q' u init p.1 p.2 := by
+  obtain ⟨q', u, init, rel, _, hst, hrel, _, _⟩ := aggregatePeriod_decompose h
+  obtain ⟨hlen, hall⟩ := assignWindows_spec hrel
+  exact ⟨q', u, init, rel, hst, by rw [hlen, List.length_mergeSort], hall⟩
+
+/-! ### 2. cells and conservation -/
+
+/-- **`aggPeriod_cell_spec`.** Exactly one output cell per (window, evaluation date) that has a re-labelled
+source cell — the output keys are a permutation of the distinct keys of the re-labelled cells —, it is a
+CumulativeCell carrying the slice's metadata, and every field whose rule is the sum of itself equals, sample by
+sample, the sum of that field over ALL re-labelled source cells with that window and evaluation date. -/
+theorem aggPeriod_cell_spec {tr : Transc} {t out : List Cell} {q : Int} {s : String} {origin : Date}
+    {prem : Bool} (h : aggregatePeriod tr t (some (q, s)) origin prem = .ok out) :
+    ∃ q' u init rel,
+      assignWindows q' u init (t.mergeSort fun a b => coordCmp a b != .gt) = .ok rel ∧
+      (out.map key3).Perm (smDedup (rel.map key3)) ∧
+      ∀ o ∈ out, o.kind = .cumulative ∧ (∃ rc ∈ rel, key3 rc = key3 o ∧ rc.md = o.md) ∧
+        ∀ (f : String) (i : Nat), ruleOf [] (lowerKey f) = some ⟨.sum, [f]⟩ →
+          (prem = true ∨ f ∉ nonLossMetrics) →
+          (∀ rc ∈ rel, key3 rc = key3 o → (rc.getV f).inRange i = true) →
+          (o.getV f).at i =
+            ((rel.filter fun rc => key3 rc == key3 o).map fun rc => (rc.getV f).at i).sum := by
+  obtain ⟨q', u, init, rel, newCells, _, hrel, hnew, hperm⟩ := aggregatePeriod_decompose h
+  refine ⟨q', u, init, rel, hrel, ?_, ?_⟩
+  · have hk : newCells.map key3 = (groupsOf key3 rel).map (·.1) :=
+      smMapE_map _ _ hnew (fun g hg o ho => (aggCell_key hg ho).1)
+    have := hperm.map key3
+    rw [hk] at this
+    simpa [groupsOf, List.map_map, Function.comp_def] using this
+  · intro o ho
+    obtain ⟨g, hg, hgo⟩ := smMapE_mem hnew (hperm.mem_iff.mp ho)
+    obtain ⟨hkey, hg2⟩ := aggCell_key hg hgo
+    obtain ⟨c0, rest, vals, hgc, hvals, ho'⟩ := aggCell_ok hgo
+    have hc0 : c0 ∈ rel.filter (fun c => key3 c == key3 o) := by rw [← hg2, hgc]; simp
+    refine ⟨by rw [ho'], ⟨c0, (List.mem_filter.mp hc0).1, by simpa using (List.mem_filter.mp hc0).2,
+      by rw [ho']⟩, ?_⟩
+    intro f i hr hc hin
+    have := summarizeCellValues_sum_at' (i := i) hvals hc hr (by
+      rw [hg2]; intro c hc'
+      exact hin c (List.mem_filter.mp hc').1 (by simpa using (List.mem_filter.mp hc').2))
+    have hget : o.getV f = (Dict.get? vals f).getD .none := by rw [ho']; rfl
+    rw [hget, this.1, hg2]
+
+/-- **`aggPeriod_conserves`.** Per slice (`_aggregate_period` runs on one slice), evaluation date and summed
+field, the total is conserved sample by sample: nothing is dropped, duplicated or apportioned. -/
+theorem aggPeriod_conserves {tr : Transc} {t out : List Cell} {q : Int} {s : String} {origin : Date}
+    {prem : Bool} {f : String} {i : Nat}
+    (h : aggregatePeriod tr t (some (q, s)) origin prem = .ok out)
+    (hr : ruleOf [] (lowerKey f) = some ⟨.sum, [f]⟩) (hc : prem = true ∨ f ∉ nonLossMetrics)
+    (hin : ∀ c ∈ t, (c.getV f).inRange i = true) (e : Date) :
+    ((out.filter fun o => o.ev == e).map fun o => (o.getV f).at i).sum =
+      ((t.filter fun c => c.ev == e).map fun c => (c.getV f).at i).sum := by
+  obtain ⟨q', u, init, rel, newCells, _, hrel, hnew, hperm⟩ := aggregatePeriod_decompose h
+  obtain ⟨hlen, hall⟩ := assignWindows_spec hrel
+  let G : Cell → Rat := fun x => if x.ev == e then (x.getV f).at i else 0
+  have hsorted : (t.mergeSort fun a b => coordCmp a b != .gt).Perm t := List.mergeSort_perm _ _
+  -- re-labelling keeps evaluation date and values
+  have hV : (t.mergeSort fun a b => coordCmp a b != .gt).map (fun c => (c.ev, c.getV f)) =
+      rel.map (fun rc => (rc.ev, rc.getV f)) :=
+    map_eq_of_zip _ _ _ _ hlen (fun p hp => by
+      obtain ⟨k, _, _, _, hev, hvals, _⟩ := hall p hp
+      simp [Cell.getV, hev, hvals])
+  have hrange : ∀ rc ∈ rel, (rc.getV f).inRange i = true := by
+    intro rc hrc
+    have : (rc.ev, rc.getV f) ∈ rel.map (fun rc => (rc.ev, rc.getV f)) := List.mem_map.mpr ⟨rc, hrc, rfl⟩
+    rw [← hV] at this
+    obtain ⟨c, hc', hce⟩ := List.mem_map.mp this
+    have : c.getV f = rc.getV f := by simpa using congrArg Prod.snd hce
+    rw [← this]; exact hin c (hsorted.mem_iff.mp hc')
+  have hG : (t.mergeSort fun a b => coordCmp a b != .gt).map G = rel.map G := by
+    have := congrArg (List.map fun p : Date × Val => if p.1 == e then p.2.at i else 0) hV
+    simpa [List.map_map, Function.comp_def, G] using this
+  -- piles
+  have hcell : ∀ g ∈ groupsOf key3 rel, ∀ o, aggCell tr prem g = .ok o → G o = (g.2.map G).sum := by
+    intro g hg o hgo
+    obtain ⟨hkey, hg2⟩ := aggCell_key hg hgo
+    obtain ⟨c0, rest, vals, hgc, hvals, ho'⟩ := aggCell_ok hgo
+    have hev : ∀ c ∈ g.2, c.ev = o.ev := by
+      intro c hc'
+      rw [hg2] at hc'
+      have : key3 c = key3 o := by simpa using (List.mem_filter.mp hc').2
+      exact congrArg (fun k : Date × Date × Date => k.2.2) this
+    have hsub : ∀ c ∈ g.2, c ∈ rel := fun c hc' => by rw [hg2] at hc'; exact (List.mem_filter.mp hc').1
+    by_cases hoe : (o.ev == e) = true
+    · have := summarizeCellValues_sum_at' (i := i) hvals hc hr (fun c hc' => hrange c (hsub c hc'))
+      have hget : o.getV f = (Dict.get? vals f).getD .none := by rw [ho']; rfl
+      simp only [G, hoe, if_true]
+      rw [hget, this.1]
+      congr 1
+      apply List.map_congr_left
+      intro c hc'
+      simp [hev c hc', hoe]
+    · simp only [G, hoe]
+      rw [sum_map_zero]
+      · rfl
+      · intro c hc'; simp [hev c hc', hoe]
+  rw [sum_filter_eq_indicator, sum_filter_eq_indicator]
+  show (out.map G).sum = (t.map G).sum
+  rw [sum_perm (hperm.map G), smMapE_sum G (fun g => (g.2.map G).sum) hnew hcell]
+  unfold groupsOf
+  rw [List.map_map]
+  have := sum_groups key3 G (smDedup (rel.map key3)) rel (nodup_smDedup _)
+    (fun a ha => mem_smDedup.mpr (List.mem_map.mpr ⟨a, ha, rfl⟩))
+  simp only [Function.comp_def]
+  rw [this, ← hG]
+  exact sum_perm (hsorted.map G)
+
+/-! ### 3. straddling -/
+
+/-- a successful aggregation contains no straddling period: every source period ends no later than its
+window (second half of `Relabelled` in `window_spec`), and a `TriangleError` of the window walk is caused by a
+cell that starts no later than the end of some window and ends after it -/
+theorem aggPeriod_error_iff_straddle_partial {q : Int} {u : ResUnit} {init : Date} {cells : List Cell} :
+    (∀ rel, assignWindows q u init cells = .ok rel →
+      ∀ p ∈ cells.zip rel, ¬ (p.2.pe < p.1.pe)) ∧
+    (assignWindows q u init cells = .error .triangleError →
+      ∃ c ∈ cells, ∃ k, ¬ ((windowAt q u init k).2 < c.ps) ∧ (windowAt q u init k).2 < c.pe) := by
+  refine ⟨fun rel h p hp => ?_, assignWindows_triangleError⟩
+  obtain ⟨_, _, _, _, _, _, _, _, hno⟩ := (assignWindows_spec h).2 p hp
+  exact hno
+
+-- OPEN aggPeriod_error_iff_straddle
+-- theorem aggPeriod_error_iff_straddle (hsorted : cells sorted by period_start) (hpos : the step is increasing) :
+--     assignWindows q u init cells = .error .triangleError ↔
+--       ∃ c ∈ cells, ∃ k, (∀ j < k, (windowAt q u init j).2 < c.ps) ∧ ¬ ((windowAt q u init k).2 < c.ps) ∧
+--         (windowAt q u init k).2 < c.pe
+-- (missing: the converse direction — that the FIRST window whose end is not before the cell's start is the one
+--  the carried `current_init` reaches, which needs sortedness of the cells and transitivity of the date order
+--  along the walk; and that no other error pre-empts it.) The harness checks the iff on every generated case
+--  against the closed-form `Spec.C08.expectStraddle`.
+
+/-! ### 4. evaluation aggregation only removes cells -/
+
+/-- **`aggEval_eq_filter`.** On a canonical slice, aggregation to an evaluation resolution returns exactly the
+cells whose evaluation date is on the grid, in their order, unchanged; the grid is the chain
+`first point, +res, +2·res, …` up to the last evaluation date, started one step after the anchor. -/
+theorem aggEval_eq_filter {t out : List Cell} {q : Int} {s : String} {origin : Date}
+    (hs : t.Pairwise (fun a b => Cell.le a b)) (hk : kindsConsistent t = true)
+    (h : aggregateEval t (some (q, s)) origin = .ok out) :
+    ∃ q' u first last grid, standardizeResolution q s = .ok (q', u) ∧
+      minDate (t.map (·.ev)) = some first ∧ maxDate (t.map (·.ev)) = some last ∧
+      validEvals q' u origin first last = some grid ∧
+      out = t.filter fun c => grid.contains c.ev := by
+  unfold aggregateEval at h
+  simp only at h
+  split at h
+  · cases h
+  · rename_i q' u hst
+    split at h
+    · rename_i first last hmin hmax
+      split at h
+      · cases h
+      · rename_i grid hgrid
+        rw [ofCells_filter_sorted hs hk] at h
+        cases h
+        exact ⟨q', u, first, last, grid, hst, hmin, hmax, hgrid, rfl⟩
+    · cases h
+
+/-- the grid of `aggEval_eq_filter` really is `anchor + k·res`, `k = 1, 2, …`, cut at the last evaluation date -/
+theorem evalGrid_spec {q : Int} {u : ResUnit} {origin first last : Date} {grid : List Date}
+    (h : validEvals q u origin first last = some grid) :
+    ∃ anchor, anchorBefore q u origin first = some anchor ∧ ¬ (first ≤ anchor) ∧
+      (∀ j (hj : j < grid.length), grid[j] = iterD q u (j + 1) anchor ∧ grid[j] ≤ last) ∧
+      ¬ (iterD q u (grid.length + 1) anchor ≤ last) := by
+  unfold validEvals at h
+  split at h
+  · cases h
+  · rename_i a ha
+    obtain ⟨h1, h2⟩ := gridFrom_spec h
+    refine ⟨a, ha, ?_, ?_, ?_⟩
+    · unfold anchorBefore at ha
+      split at ha
+      · cases ha
+      · exact walkDown_spec ha
+    · intro j hj
+      have := h1 j hj
+      simpa [iterD] using this
+    · simpa [iterD] using h2
+
+/-! ### 5. incremental in/out -/
+
+/-- **`aggregate_incremental_commutes`.** On an incremental triangle `aggregate` is the incremental form of the
+aggregate of its cumulative form (definitional in code and model; stated so that a rewrite which breaks it is
+caught). -/
 theorem aggregate_incremental_commutes (tr : Transc) (t : List Cell) (a : AggArgs)
     (h : smIsIncremental t = true) :
     aggregate tr t a =
@@ -26,5 +230,39 @@ theorem aggregate_cumulative (tr : Transc) (t : List Cell) (a : AggArgs)
     (h : smIsIncremental t = false) : aggregate tr t a = aggregateCum tr t a := by
   unfold aggregate
   simp [h]
+
+/-- with neither resolution given every slice is returned as it is -/
+theorem aggregateSlice_none (tr : Transc) (s : List Cell) (a : AggArgs) (hp : a.periodRes = none)
+    (he : a.evalRes = none) : aggregateSlice tr a s = .ok s := by
+  simp [aggregateSlice, aggregateEval, aggregatePeriod, hp, he]
+
+/-! ### 6. non-vacuity: three quarters into half-years -/
+
+def exQ : List Cell :=
+  [ { kind := .cumulative, ps := ⟨2020, 1, 1⟩, pe := ⟨2020, 3, 31⟩, ev := ⟨2020, 12, 31⟩,
+      values := [("paid_loss", .int 10)] },
+    { kind := .cumulative, ps := ⟨2020, 4, 1⟩, pe := ⟨2020, 6, 30⟩, ev := ⟨2020, 12, 31⟩,
+      values := [("paid_loss", .int 5)] },
+    { kind := .cumulative, ps := ⟨2020, 7, 1⟩, pe := ⟨2020, 9, 30⟩, ev := ⟨2020, 12, 31⟩,
+      values := [("paid_loss", .int 2)] } ]
+
+/-- the anchor walk from the default origin reaches the month end before the data (40 half-year steps) -/
+example : anchorBefore 6 .month ⟨1999, 12, 31⟩ ⟨2020, 1, 1⟩ = some ⟨2019, 12, 31⟩ := by decide +kernel
+
+/-- the window walk succeeds and puts the first two quarters into one window -/
+example :
+    (match assignWindows 6 .month ⟨2019, 12, 31⟩ exQ with
+     | .ok rel => decide (rel.map key3 =
+         [(⟨2020, 1, 1⟩, ⟨2020, 6, 30⟩, ⟨2020, 12, 31⟩), (⟨2020, 1, 1⟩, ⟨2020, 6, 30⟩, ⟨2020, 12, 31⟩),
+          (⟨2020, 7, 1⟩, ⟨2020, 12, 31⟩, ⟨2020, 12, 31⟩)])
+     | .error _ => false) = true := by
+  decide +kernel
+
+/-- four-month windows cut the second quarter: refused with `TriangleError` -/
+example :
+    (match assignWindows 4 .month ⟨2019, 12, 31⟩ exQ with
+     | .error e => decide (e = .triangleError)
+     | .ok _ => false) = true := by
+  decide +kernel
 
 end Bermuda.Properties.C08
